@@ -415,6 +415,8 @@ class ShortTimeFourierTransformFrameComputer(LinearFilterBankFrameComputer):
             half_spect = np.fft.rfft(frame * self._window, n=self._dft_size)
         assert half_spect.dtype == np.complex128
         half_len = len(half_spect)
+        # bins half_len..dft_size-1 are the conjugates of bins num_mirrored..1
+        num_mirrored = self._dft_size - half_len
         for filt_idx in range(len(self._filt_start_idxs)):
             start_idx = self._filt_start_idxs[filt_idx]
             truncated_filt = self._truncated_filts[filt_idx]
@@ -425,23 +427,19 @@ class ShortTimeFourierTransformFrameComputer(LinearFilterBankFrameComputer):
             while consumed < trunc_len:
                 if conjugate:
                     seg_len = (
-                        min(
-                            start_idx + trunc_len - consumed,
-                            half_len - 2 + half_len % 2,
-                        )
+                        min(start_idx + trunc_len - consumed, num_mirrored)
                         - start_idx
                     )
                     seg_len = max(0, seg_len)
                     if seg_len:
                         val += self._nonlin_op(
                             half_spect[
-                                (-2 + (half_len % 2) - start_idx) : (
-                                    -2 + (half_len % 2) - start_idx - seg_len
-                                ) : -1
-                            ].conj()
+                                num_mirrored - start_idx - seg_len + 1 :
+                                num_mirrored - start_idx + 1
+                            ][::-1].conj()
                             * truncated_filt[consumed : consumed + seg_len]
                         )
-                    start_idx -= half_len - 2 + half_len % 2
+                    start_idx -= num_mirrored
                 else:
                     seg_len = min(start_idx + trunc_len - consumed, half_len)
                     seg_len -= start_idx
